@@ -459,6 +459,18 @@ class C10:
                 if not any(w.target_flags()):
                     twin = None
             check_limits(w, prop, "after construction")
+            # ---- reference for the quasi-Newton (Broyden) steps: on a LINEAR plant the secant update reproduces the
+            # finite-difference Jacobian exactly (for the rows of targets that have been active all along, while every knob
+            # has been active all along), so the same history without `broyden` must give the same knobs.  A row kept from
+            # the time a target was still active has no business in the step once the target is disabled.
+            bref = None
+            valid_t = None
+            if spec["plant"]["kind"] == "lin" and not case["faults"] and any(c[0] in ("step", "solve") and c[1].get("broyden") for c in case["calls"]):
+                bref, exc = call(lambda: OWorld(ctx.xd, spec))
+                if exc is not None:
+                    bref = None
+                elif tt is not None and twin is not None:
+                    bref.opt.disable(target=tt)
             for i, c in enumerate(case["calls"]):
                 if tt is not None and c[0] in ("enable",) and c[1] == "target" and tt in _resolve(w, "target", c[2]):
                     continue
@@ -477,6 +489,11 @@ class C10:
                 kb = w.knob_values()
                 vfb, tfb = w.vary_flags(), w.target_flags()
                 during_v, during_t = call_flags(w, c[1]) if c[0] == "step" else (vfb, tfb)
+                prev_jac_k = None
+                if bref is not None:
+                    # (validity of the Broyden reference only) the point the solver's current Jacobian belongs to
+                    pj = getattr(w.opt.solver, "_last_jac_x", None)
+                    prev_jac_k = None if pj is None else [float(a) * (wt if wt is not None else 1.0) for a, wt in zip(pj, spec["weights"])]
                 fl = [f for f in case["faults"] if f[0] == i]
                 if fl:
                     w.arm(fails=[f[2] for f in fl])
@@ -533,6 +550,42 @@ class C10:
                             if j not in named and va[j] != vfb[j]:
                                 raise OViolation(prop + ".flags_changed", "%s: the active flag of knob %d changed from %s to %s although the call did not name it"
                                                  % (where, j, vfb[j], va[j]))
+                # ---- the reference without Broyden steps (linear plants)
+                if bref is not None:
+                    c3 = c if c[0] not in ("step", "solve") else (c[0], {k: v for k, v in c[1].items() if k != "broyden"})
+                    v3, e3 = apply_call(bref, c3)
+                    if c[0] in ("step", "solve"):
+                        if not all(during_v) or (valid_t is not None and any(a and not b for a, b in zip(during_t, valid_t))):
+                            bref = None          # a knob was inactive, or a target came back: the secant Jacobian may legitimately differ
+                        else:
+                            valid_t = list(during_t) if valid_t is None else [a and b for a, b in zip(during_t, valid_t)]
+                    if bref is not None and (exc is not None or e3 is not None):
+                        bref = None
+                    if bref is not None and c[0] in ("step", "solve"):
+                        l1, l3 = w.raw_log(), bref.raw_log()
+                        conds = [float(x) for x in list(l1["last_jac_cond"][n0:]) + list(l3["last_jac_cond"][n0:])]
+                        if any((x != x) or x > 1e3 for x in conds):
+                            bref = None          # ill-conditioned: rounding of the finite differences is amplified
+                        # a secant update between two (nearly) identical points divides rounding noise by rounding noise
+                        pts = ([prev_jac_k] if prev_jac_k is not None else []) + [[float(x) for x in l1["knobs"][r]] for r in range(n0, len(l1["knobs"]))
+                                                                                    if l1["tag"][r] != "take_best"]
+                        for p_, q_ in zip(pts, pts[1:]):
+                            if max(abs(a - b) for a, b in zip(p_, q_)) <= 1e-6 * (1.0 + max(abs(b) for b in q_)):
+                                bref = None
+                                break
+                    if bref is not None:
+                        ka, kb3 = w.knob_values(), bref.knob_values()
+                        for j, (a, b) in enumerate(zip(ka, kb3)):
+                            if abs(a - b) > 1e-3 * (1.0 + abs(b)):
+                                raise OViolation(prop + ".broyden_reference", "%s: knob %d ends at %r; the same history with finite-difference Jacobians "
+                                                 "instead of Broyden updates (linear plant: the two coincide) gives %r; targets active in this call %s, "
+                                                 "active in every earlier call %s" % (where, j, a, b, list(during_t), valid_t))
+                        if c[0] in ("step", "solve") and c[1].get("broyden"):
+                            count("broyden_calls_compared_with_finite_differences")
+                            if not all(during_t):
+                                count("broyden_calls_compared_with_a_target_disabled")
+                        if len(w.raw_log()["penalty"]) != len(bref.raw_log()["penalty"]):
+                            bref = None          # one of the two stopped a (rounding-level) step earlier: row numbers no longer correspond
                 # ---- the twin: a disabled target has no influence
                 if twin is not None:
                     v2, e2 = apply_call(twin, c)
